@@ -27,8 +27,8 @@ type SegH struct {
 	Canon *Canon
 	Spec  *BatchSpec
 	Depth int
-	Mode  uint32 // chunk mode it was written with
-	Size  uint64 // size reported by New / Merge
+	Mode  uint32       // chunk mode it was written with
+	Size  uint64       // size reported by New / Merge
 	Roots map[int]bool // lineage: builds this segment descends from
 }
 
@@ -539,7 +539,7 @@ func safeDocNumbers(seg segment.Segment, ids []string) (bm *roaring.Bitmap, err 
 
 type Footer struct {
 	NumDocs, Stored, FieldsIdx, SectionsIdx, DV uint64
-	Chunk, Version, CRC                       uint32
+	Chunk, Version, CRC                         uint32
 }
 
 const footerLen = 8*5 + 4*3
